@@ -355,7 +355,11 @@ func scratchDir() string {
 	return d
 }
 
-func CleanScratch() { os.RemoveAll(ScratchRoot()) }
+func CleanScratch() {
+	if os.Getenv("VERIF_KEEP_SCRATCH") == "" {
+		os.RemoveAll(ScratchRoot())
+	}
+}
 
 // Sources returns the package's files as a name -> source map (copy).
 func (p *Pkg) Sources() map[string][]byte {
